@@ -2,3 +2,11 @@
 pub fn queue_len<T: Send + Sync + 'static>(q: &CobwebCommandQueue<T>) -> usize { q.commands.len() }
 pub fn queue_at<T: Send + Sync + 'static + Copy>(q: &CobwebCommandQueue<T>, i: usize) -> T { q.commands[i] }
 pub fn cached_buffers<T: Send + Sync + 'static>(q: &CobwebCommandQueue<T>) -> usize { q.buffers.len() }
+/// true iff no cached (spare) buffer holds a command: a command sitting there is lost for good
+pub fn no_cached_commands<T: Send + Sync + 'static>(q: &CobwebCommandQueue<T>) -> bool
+{
+    let mut ok = true;
+    let mut i = 0;
+    while i < q.buffers.len() { if q.buffers[i].len() != 0 { ok = false; } i += 1; }
+    ok
+}
